@@ -185,3 +185,103 @@ func init() {
 	certOp("certs-import-samedest", map[string][]byte{"a.pem": gen.CertPEM("a"), "sub/a.pem": gen.CertPEM("a2")},
 		[]string{"a.pem", "sub/a.pem"}, []string{"a.p7c"}, true)
 }
+
+// ---- font cheat sheets (api.CreateUserFontDemoFiles, api.CreateCheatSheetsUserFonts): a batch of PDFs, one per
+// covered Unicode plane and font, staged in a hidden directory and published into the sheet directory.
+
+// OldSheetContent is what a pre-existing cheat sheet holds before the call.
+var OldSheetContent = []byte("%PDF-OLD cheat sheet generated by an earlier run\n")
+
+var sheetNames = map[string][]string{} // op name -> names the fault-free call publishes (computed once per process)
+
+func sheetOp(name string, letters []byte, natural bool, run func(e *Env, dir string) error) *Op {
+	o := &Op{Name: name, Family: "install", Rels: []string{RelFresh, RelPreexisting, RelPartial}, NaturalFail: natural}
+	o.SetupInstall = func(e *Env, rel string) error {
+		sheets := filepath.Join(e.Root, "sheets")
+		if err := os.Mkdir(sheets, 0755); err != nil {
+			return err
+		}
+		os.WriteFile(filepath.Join(sheets, "bystander.pdf"), []byte("not a cheat sheet, must not be touched"), 0644)
+		tmp := filepath.Join(e.Tmp, "new.ttf")
+		for _, c := range append([]byte{'Z'}, letters...) {
+			if err := os.WriteFile(tmp, gen.Variant(c, 0), 0644); err != nil {
+				return err
+			}
+			if _, err := font.InstallTrueTypeFont(e.FontDir, tmp); err != nil {
+				return fmt.Errorf("preinstall %c: %w", c, err)
+			}
+		}
+		os.Remove(tmp)
+		font.UserFontDir = e.FontDir
+		if err := font.ReloadUserFonts(); err != nil {
+			return err
+		}
+		names, ok := sheetNames[name]
+		if !ok {
+			// learn the published names from one call outside the simulation
+			probe := filepath.Join(e.Tmp, "probe")
+			os.Mkdir(probe, 0755)
+			wd, _ := os.Getwd()
+			os.Chdir(probe)
+			err := run(e, probe)
+			os.Chdir(wd)
+			if err != nil && !natural {
+				return fmt.Errorf("probe run: %w", err)
+			}
+			ents, _ := os.ReadDir(probe)
+			for _, d := range ents {
+				if d.Name()[0] == '.' {
+					return fmt.Errorf("probe run left %s", d.Name())
+				}
+				names = append(names, d.Name())
+			}
+			if natural {
+				// nothing is published by a naturally failing batch; its would-be targets are the valid fonts' sheets
+				for _, c := range letters {
+					names = append(names, gen.FontName(c)+"_BMP.pdf")
+				}
+			}
+			os.RemoveAll(probe)
+			sheetNames[name] = names
+		}
+		for _, n := range names {
+			e.Targets = append(e.Targets, "sheets/"+n)
+		}
+		pre := names
+		switch rel {
+		case RelFresh:
+			pre = nil
+		case RelPartial:
+			pre = pre[:1]
+		}
+		for _, n := range pre {
+			p := filepath.Join(sheets, n)
+			if err := os.WriteFile(p, OldSheetContent, 0640); err != nil {
+				return err
+			}
+			os.Chmod(p, 0640)
+		}
+		e.Chdir = sheets
+		return nil
+	}
+	o.Run = func(e *Env) error {
+		font.UserFontDir = e.FontDir
+		return run(e, filepath.Join(e.Root, "sheets"))
+	}
+	register(o)
+	return o
+}
+
+func init() {
+	sheetOp("sheets-demo1", []byte{'A'}, false, func(e *Env, dir string) error {
+		return api.CreateUserFontDemoFiles(dir, gen.FontName('A'))
+	})
+	// the batch API publishes into the current directory
+	sheetOp("sheets-batch2", []byte{'A', 'B'}, false, func(e *Env, dir string) error {
+		return api.CreateCheatSheetsUserFonts([]string{gen.FontName('B'), gen.FontName('A')})
+	})
+	// a font name that is not installed is discovered after the user fonts are loaded
+	sheetOp("sheets-batch-unknown", []byte{'A'}, true, func(e *Env, dir string) error {
+		return api.CreateCheatSheetsUserFonts([]string{gen.FontName('A'), "NoSuchFont"})
+	})
+}
